@@ -1,48 +1,1 @@
-// generated by the runner: concrete counterexamples replayed natively
-use super::r#gen::*;
-/// Test generated for harness `r#gen::c01_reader_s1` 
-///
-/// Check for `assertion`: ""bump makes progress while input remains""
-
-#[test]
-fn kani_concrete_playback_c01_reader_s1_15058303030537576584() {
-    let concrete_vals: Vec<Vec<u8>> = vec![
-        // 2
-        vec![2],
-        // 1
-        vec![1],
-    ];
-    kani::concrete_playback_run(concrete_vals, c01_reader_s1);
-}
-/// Test generated for harness `r#gen::c01_reader_s1` 
-///
-/// Check for `assertion`: ""end of input is reported exactly when every byte has been consumed""
-
-#[test]
-fn kani_concrete_playback_c01_reader_s1_14910264263503491709() {
-    let concrete_vals: Vec<Vec<u8>> = vec![
-        // 2
-        vec![2],
-        // 0
-        vec![0],
-    ];
-    kani::concrete_playback_run(concrete_vals, c01_reader_s1);
-}
-/// Test generated for harness `r#gen::c01_reader_s21` 
-///
-/// Check for `assertion`: ""end of input is reported exactly when every byte has been consumed""
-
-#[test]
-fn kani_concrete_playback_c01_reader_s21_4098897399618554035() {
-    let concrete_vals: Vec<Vec<u8>> = vec![
-        // 2
-        vec![2],
-        // 2
-        vec![2],
-        // 0
-        vec![0],
-        // 1
-        vec![1],
-    ];
-    kani::concrete_playback_run(concrete_vals, c01_reader_s21);
-}
+// no concrete playback test recorded
